@@ -1620,6 +1620,29 @@ func run(c Case, info *runInfo) *hx.Failure {
 			w.tr.f("fault armed on B: block writes fail after %d more (B %s)", k, w.bView)
 		case "heal":
 			w.heal()
+		case "racew":
+			// a write on A at the moment B stores a block of an incoming push, i.e. while a push-log call
+			// of A (a retry, with a pending record) is in flight: the new commit is concurrent with it
+			fired := false
+			if w.b.up && w.b.fault != nil {
+				ch := w.b.fault.onNextBlockWrite()
+				select {
+				case <-ch:
+					fired = true
+				case <-time.After(6 * time.Second):
+					w.b.fault.disarmTrigger()
+				}
+			}
+			if fired {
+				w.info.set("write-while-push-in-flight")
+				if w.anyRetry() {
+					w.info.set("write-while-push-in-flight-after-retry-record")
+				}
+			} else {
+				w.info.set("race-write-trigger-not-fired")
+			}
+			w.tr.f("race write (B storing a pushed block: %v)", fired)
+			w.write(Write{Doc: op.Doc, F: op.F, V: op.V})
 		case "pause":
 			ms := op.Ms
 			if ms < 0 || ms > 10000 {
